@@ -6,6 +6,7 @@ HARNESSES = {
     "int2str_fast": dict(cfg="plain", sources=["harness/int2str.cpp"], lib_only=["/format/detail/"],
                          kind_text="bounded exhaustive enumeration (all 2^32 values), plain -O2 build with canaries"),
     "textblock": dict(cfg="asan", sources=["harness/textblock.cpp"], lib_only=["/format/text_block.cpp"]),
+    "dbs_model": dict(cfg="asan", sources=["harness/dbs_model.cpp"], lib_only=["/container/dynamic_bitset.cpp"]),
 }
 
 PROPS = {}
@@ -75,12 +76,43 @@ PROPS["C17"] = dict(
                  "indent+2 continuation lines are demanded only for list lines whose first word starts with '-' and fits on the first line"],
 )
 
+PROPS["C12"] = dict(
+    units=[
+        dict(harness="dbs_model", mode="ops", kind="enum", quick=dict(), thorough=dict()),
+        dict(harness="dbs_model", mode="ops", quick=dict(cases=20000), thorough=dict(cases=200000, shards=16)),
+    ],
+    rule="exhaustive: every bitset of size 0..6 x every single operation (20 kinds) x every position/shift 0..size+3 x "
+         "every second operand of size 0..6; generated: initial bitsets of size 0..200 (boundary sizes 63/64/65/128 "
+         "weighted) x sequences of 1..30 operations with boundary-biased positions (size-1, size, size+1, 63, 64) and "
+         "operands of equal and different size. After every operation all observers, documented throws, equality and six "
+         "iteration forms are compared with a std::vector<bool> reference. Non-trivial = the sequence addresses a "
+         "position >= the current size, shifts by >= the size, or combines bitsets of different sizes; distinct by hash "
+         "of the serialised case.",
+    require_classes=dict(all=["growth", "shift_by_size_or_more", "binary_op_different_sizes", "const_access_beyond_size"]
+                         + ["op." + n for n in ("set_all", "set_pos", "reset_all", "reset_pos", "flip_all", "flip_pos",
+                                                 "idx_write", "idx_read", "resize", "and_assign", "or_assign",
+                                                 "xor_assign", "shl", "shr", "assign_vector", "assign_bitset", "invert",
+                                                 "test", "const_idx", "copy_roundtrip")]),
+    assumptions=["growth factor is not specified: after addressing pos >= size the new size only has to exceed pos",
+                 "size after reset() and after a left shift is the implementation's choice (must hold every set bit)",
+                 "&= keeps the size of the left operand, |= and ^= grow to the larger operand (zero-extension semantics)",
+                 "vector<bool> has no hardening in libstdc++ 12, so a one-bit overrun inside the last word is detected through "
+                 "the model (missing growth), not by ASan"],
+)
+
 HOOK_COMMITS = []
 
 EXPL = ("no counter-example among the generated cases; this is search, not proof - a passing run never shows absence. "
         "Exploration is the honest level because the property quantifies over an unbounded input/history space.")
 
 MANIFEST_TEXT = {}
+MANIFEST_TEXT["C12"] = dict(
+    text="Model-based testing: every operation is applied to the DynamicBitset and to a std::vector<bool> reference; all observers, "
+         "documented throws, compound-vs-binary agreement and six iteration forms are compared after every step. All single "
+         "operations on all bitsets up to size 6 are enumerated exhaustively; longer histories are generated. " + EXPL,
+    design_ref="DESIGN.md section 4, C12",
+    note="Trusts std::vector<bool> and the zero-extension reading of mixed-size operands; sizes where the docs leave them open are taken from the implementation under stated constraints.",
+    technique="stateful model-based property testing (rapidcheck) + bounded exhaustive enumeration against a std::vector<bool> reference, under ASan/UBSan")
 MANIFEST_TEXT["C13"] = dict(
     text="All 8/16-bit values in every tier and all 2^32 values of both 32-bit types in the thorough tier are enumerated "
          "(exhaustive for those sub-spaces); 64-bit types are covered by the full power-of-ten/power-of-two boundary set, "
